@@ -1,10 +1,10 @@
 package main
 
 import (
-	"reflect"
 	"fmt"
 	"go/token"
 	"go/types"
+	"reflect"
 	"runtime/debug"
 	"sort"
 	"strings"
@@ -70,7 +70,7 @@ func (eng *Engine) verifyFunction(fn *ssa.Function, c *FuncContract, checkLocks 
 		res.Panic = "function has no body"
 		return
 	}
-	st := &State{heap: map[string]Term{}, fresh: map[string]bool{}, published: map[string]bool{}, facts: map[string]bool{}, arrVals: map[string]Value{}, freshSeq: map[string]int{}, roots: map[string]rootInfo{}, ownKeys: map[string]map[string]bool{}, defCache: map[string]string{}}
+	st := &State{heap: map[string]Term{}, fresh: map[string]bool{}, published: map[string]bool{}, facts: map[string]bool{}, arrVals: map[string]Value{}, freshSeq: map[string]int{}, foreignFresh: map[string]bool{}, roots: map[string]rootInfo{}, ownKeys: map[string]map[string]bool{}, defCache: map[string]string{}}
 	st.allocTop = e.declare("top0", SInt)
 	st.now = e.declare("now0", SInt)
 	st.assert(Le(Zero, st.allocTop))
@@ -570,7 +570,7 @@ func (eng *Engine) lemmaObligations(tag string) (*FuncResult, error) {
 			}
 		}
 		e := newExec(eng, nil)
-		st := &State{heap: map[string]Term{}, fresh: map[string]bool{}, published: map[string]bool{}, facts: map[string]bool{}, arrVals: map[string]Value{}, freshSeq: map[string]int{}, roots: map[string]rootInfo{}, ownKeys: map[string]map[string]bool{}, defCache: map[string]string{}}
+		st := &State{heap: map[string]Term{}, fresh: map[string]bool{}, published: map[string]bool{}, facts: map[string]bool{}, arrVals: map[string]Value{}, freshSeq: map[string]int{}, foreignFresh: map[string]bool{}, roots: map[string]rootInfo{}, ownKeys: map[string]map[string]bool{}, defCache: map[string]string{}}
 		st.allocTop = e.declare("top0", SInt)
 		st.now = e.declare("now0", SInt)
 		env := &SpecEnv{e: e, st: st, vars: map[string]Value{}, what: "lemma " + l.Name}
